@@ -483,6 +483,102 @@ def child(jobfile: str, outfile: str):
         json.dump(res, f)
 
 
+# ----------------------------------------------------------------------------------------------------------------
+# Sym-counter digit boundaries (the class "the ORDER of two symbols depends on the absolute counter value")
+#
+# One fixed kernel whose simplified index expression holds two DISTINCT symbols with the SAME name and EQUAL
+# coefficients: the caller's loop variable i and the i of an inlined callee, brought into one expression by
+# inline_window; simplify's sorted(normalization_list) then has nothing but Sym.__lt__ to order them.  The kernel is
+# built (a) several times in ONE process and (b) in fresh processes, after unrelated procedures / Syms have moved
+# the process-global counter so that the ids of the two symbols lie on either side of 10^k (9|10, 99|100, 999|1000
+# digits...) or well inside one digit count.  str(p), C and header text must be the same in every build.
+BOUNDARY_SRC = """
+@proc
+def bnd_callee(w: [f32][8]):
+    for i in seq(0, 4):
+        w[i] = 1.0
+        w[i + 4] += w[i]
+
+@proc
+def bnd_kernel(x: f32[16], y: f32[16]):
+    for i in seq(0, 4):
+        bnd_callee(x[i:i + 8])
+        y[i] = x[i]
+
+RESULT0 = inline(bnd_kernel, "bnd_callee(_)")
+RESULT1 = inline_window(RESULT0, "w = _")
+RESULT = simplify(RESULT1)
+"""
+
+
+def _iter_ids(p, name="i"):
+    """ids of the loop variables called `name` in a procedure (the two symbols that meet in x[i + i_1])"""
+    from exo.core.LoopIR import LoopIR
+    ids = []
+
+    def walk(stmts):
+        for st in stmts:
+            if isinstance(st, LoopIR.For):
+                if str(st.iter) == name:
+                    ids.append(st.iter._id)
+                walk(st.body)
+            elif isinstance(st, LoopIR.If):
+                walk(st.body)
+                walk(st.orelse)
+
+    walk(p._loopir_proc.body)
+    return sorted(ids)
+
+
+def boundary(jobfile: str, outfile: str):
+    """builds: list of {"kind": "natural"} | {"kind": "straddle", "pow": k} | {"kind": "inside", "pow": k};
+    offsets (a, b) of the two symbols' ids from the counter value at the start of a build come from the job (fresh
+    processes: measured by an earlier process) or from the previous build of this process."""
+    job = json.load(open(jobfile))
+    scratch = job["scratch"]
+    os.makedirs(scratch, exist_ok=True)
+    import exo  # noqa: F401
+    from exo.core.prelude import Sym
+    keep = prehistory({"procs": job.get("pre_procs", 0)}, scratch)
+    off = job.get("offsets")
+    res = {"builds": [], "counter_after_import": Sym._unq_count}
+    for n, spec in enumerate(job["builds"]):
+        cur = Sym._unq_count
+        target = cur
+        if spec["kind"] in ("straddle", "inside"):
+            if off is None:
+                res["builds"].append({"spec": spec, "skipped": "no offsets yet"})
+                continue
+            a, b = off
+            target = 10 ** spec["pow"] - (a + b + 1) // 2 if spec["kind"] == "straddle" else 2 * 10 ** spec["pow"]
+        if target < cur:
+            res["builds"].append({"spec": spec, "skipped": "counter already at %d > %d" % (cur, target)})
+            continue
+        for _ in range(target - cur):  # unrelated symbols created earlier in the process
+            Sym("pad")
+        start = Sym._unq_count
+        rec = {"spec": spec, "start": start}
+        try:
+            mod = _load(HEADER + BOUNDARY_SRC, "c18_bnd_%d" % n, scratch)
+            p = mod.RESULT
+            ids = _iter_ids(p)
+            rec["ids"] = ids
+            rec["out"] = outputs_of([mod.RESULT1, p], [[p]])
+            if len(ids) >= 2:
+                off = [ids[0] - start, ids[-1] - start]
+                rec["offsets"] = off
+        except Exception as e:
+            rec["out"] = {"err:session": errtext(e)}
+            rec["_trace"] = traceback.format_exc()[-1200:]
+        res["builds"].append(rec)
+    del keep
+    with open(outfile, "w") as f:
+        json.dump(res, f)
+
+
 if __name__ == "__main__":
+    if sys.argv[1] == "boundary":
+        boundary(sys.argv[2], sys.argv[3])
+        sys.exit(0)
     if sys.argv[1] == "child":
         child(sys.argv[2], sys.argv[3])
